@@ -260,7 +260,7 @@ class Tree_add_child(Contract):
         cx.log_write(s, "_children")
         new = kids.ghost["seq_make"](z3.Concat(kids.ghost["seq"], z3.Unit(c.ident)))
         new.ghost["last_added"] = c
-        new.ghost["added"] = list(kids.ghost.get("added", [])) + [c]
+        new.ghost["added"] = list(kids.ghost.get("added", [])) + [c]       # seq_make copied the earlier ones; idempotent
         s.fields["_children"] = new
         cx.log_write(c, "_parent")
         c.fields["_parent"] = s
